@@ -330,8 +330,8 @@ theorem router_assert_only_self {name : Asset → String} {w w' : World} {s : Na
   obtain ⟨w0, h0, _, h1, _⟩ := h
   exact (routerAssertMin_ok h1).trans (attach_same h0).1.router
 
-theorem facUpdateConfig_ok {w w' : World} {sender : Nat} {o : Option Nat}
-    (h : facUpdateConfig w sender o = .ok w') :
+theorem facUpdateConfig_ok {w w' : World} {sender : Nat} {o tc pc : Option Nat}
+    (h : facUpdateConfig w sender o tc pc = .ok w') :
     sender = w.owner ∧ w'.owner = o.getD w.owner ∧ w'.facAddr = w.facAddr ∧ w'.router = w.router := by
   unfold facUpdateConfig at h
   split at h
@@ -340,6 +340,16 @@ theorem facUpdateConfig_ok {w w' : World} {sender : Nat} {o : Option Nat}
   injection h with h
   subst h
   exact ⟨Decidable.not_not.mp hs, rfl, rfl, rfl⟩
+
+theorem facUpdateConfig_codes {w w' : World} {sender : Nat} {o tc pc : Option Nat}
+    (h : facUpdateConfig w sender o tc pc = .ok w') :
+    w'.tokenCode = tc.getD w.tokenCode ∧ w'.pairCode = pc.getD w.pairCode := by
+  unfold facUpdateConfig at h
+  split at h
+  · cases h
+  injection h with h
+  subst h
+  exact ⟨rfl, rfl⟩
 
 theorem facCreatePair_ok {w w' : World} {sender : Nat} {a0 a1 : Asset} {req : Requirements} {comm : Option Nat}
     {np nl : Nat} (h : facCreatePair w sender a0 a1 req comm np nl = .ok w') :
@@ -358,6 +368,8 @@ theorem facCreatePair_ok {w w' : World} {sender : Nat} {a0 a1 : Asset} {req : Re
   · cases h
   simp only [bind_ok_iff] at h
   obtain ⟨d0, _, d1, _, h⟩ := h
+  split at h
+  · cases h
   split at h
   · cases h
   injection h with h
@@ -413,13 +425,16 @@ theorem facAddDecimals_ok {w w' : World} {sender denom decimals : Nat}
     subst h
     exact ⟨rfl, rfl, rfl⟩
 
-theorem facMigratePair_ok {w w' : World} {sender p : Nat} (h : facMigratePair w sender p = .ok w') :
+theorem facMigratePair_ok {w w' : World} {sender p : Nat} {c : Option Nat}
+    (h : facMigratePair w sender p c = .ok w') :
     sender = w.owner ∧ Keep w w' := by
   unfold facMigratePair at h
   split at h
   · cases h
   rename_i hs
   refine ⟨Decidable.not_not.mp hs, ?_⟩
+  split at h
+  · cases h
   split at h
   · split at h
     · injection h with h; subst h; exact Keep.refl _
@@ -428,37 +443,51 @@ theorem facMigratePair_ok {w w' : World} {sender p : Nat} (h : facMigratePair w 
 
 theorem facExec_ok {w w' : World} {s : Nat} {funds : List (Nat × Nat)} {m : FacMsg}
     (h : facExec w s funds m = .ok w') :
-    s = w.owner ∧ (Keep w w' ∨ ∃ o, m = .updateConfig (some o) ∧ w'.owner = o) := by
+    s = w.owner ∧ (Keep w w' ∨ ∃ o tc pc, m = .updateConfig (some o) tc pc ∧ w'.owner = o) := by
   unfold facExec at h
   simp only [bind_ok_iff] at h
   obtain ⟨w0, h0, h⟩ := h
   have k0 := (attach_same h0).1.keep
   cases m with
-  | updateConfig o =>
+  | updateConfig o tc pc =>
     obtain ⟨hs, ho, hf, hr⟩ := facUpdateConfig_ok h
     refine ⟨hs.trans k0.owner, ?_⟩
     cases o with
     | none => exact .inl (k0.trans ⟨ho, hf, hr⟩)
-    | some o => exact .inr ⟨o, rfl, ho⟩
+    | some o => exact .inr ⟨o, tc, pc, rfl, ho⟩
   | createPair a0 a1 req comm np nl =>
     obtain ⟨hs, k⟩ := facCreatePair_ok h
     exact ⟨hs.trans k0.owner, .inl (k0.trans k)⟩
   | addDecimals d k =>
     obtain ⟨hs, k⟩ := facAddDecimals_ok h
     exact ⟨hs.trans k0.owner, .inl (k0.trans k)⟩
-  | migratePair p =>
+  | migratePair p c =>
     obtain ⟨hs, k⟩ := facMigratePair_ok h
     exact ⟨hs.trans k0.owner, .inl (k0.trans k)⟩
 
 theorem factory_only_owner {w w' : World} {s : Nat} {funds : List (Nat × Nat)} {m : FacMsg}
     (h : facExec w s funds m = .ok w') : s = w.owner := (facExec_ok h).1
 
-theorem ownership_follows {w w' : World} {s o : Nat} {funds : List (Nat × Nat)}
-    (h : facExec w s funds (.updateConfig (some o)) = .ok w') : w'.owner = o := by
+theorem ownership_follows {w w' : World} {s o : Nat} {funds : List (Nat × Nat)} {tc pc : Option Nat}
+    (h : facExec w s funds (.updateConfig (some o) tc pc) = .ok w') : w'.owner = o := by
   unfold facExec at h
   simp only [bind_ok_iff] at h
   obtain ⟨w0, h0, h⟩ := h
   exact (facUpdateConfig_ok h).2.1
+
+theorem config_follows {w w' : World} {s : Nat} {funds : List (Nat × Nat)} {o tc pc : Option Nat}
+    (h : facExec w s funds (.updateConfig o tc pc) = .ok w') :
+    w'.owner = o.getD w.owner ∧ w'.tokenCode = tc.getD w.tokenCode ∧ w'.pairCode = pc.getD w.pairCode := by
+  unfold facExec at h
+  simp only [bind_ok_iff] at h
+  obtain ⟨w0, h0, h⟩ := h
+  have ho := (facUpdateConfig_ok h).2.1
+  obtain ⟨ht, hp⟩ := facUpdateConfig_codes h
+  obtain ⟨cp, ct, _, _⟩ := attach_codes h0
+  rw [(attach_same h0).1.owner] at ho
+  rw [ct] at ht
+  rw [cp] at hp
+  exact ⟨ho, ht, hp⟩
 
 theorem tokSend_keep {name : Asset → String} {w w' : World} {t sender dst amt : Nat} {hk : Hook} {out : Out}
     (h : tokSend name w t sender dst amt hk = .ok (w', out)) : Keep w w' := by
@@ -473,7 +502,8 @@ theorem tokSend_keep {name : Asset → String} {w w' : World} {t sender dst amt 
 
 theorem owner_changes_only_by_owner {name : Asset → String} {w w' : World} {op : Op} {out : Out}
     (h : exec name w op = .ok (w', out)) :
-    w'.owner = w.owner ∨ ∃ s f o, op = .factory s f (.updateConfig (some o)) ∧ s = w.owner ∧ w'.owner = o := by
+    w'.owner = w.owner ∨
+      ∃ s f o tc pc, op = .factory s f (.updateConfig (some o) tc pc) ∧ s = w.owner ∧ w'.owner = o := by
   cases op with
   | bankSend s d cs =>
     simp only [exec, bind_ok_iff, pure_ok_iff, Prod.mk.injEq] at h
@@ -500,9 +530,9 @@ theorem owner_changes_only_by_owner {name : Asset → String} {w w' : World} {op
   | factory s f m =>
     simp only [exec, bind_ok_iff, pure_ok_iff, Prod.mk.injEq] at h
     obtain ⟨w1, h1, rfl, _⟩ := h
-    obtain ⟨hs, hk | ⟨o, rfl, ho⟩⟩ := facExec_ok h1
+    obtain ⟨hs, hk | ⟨o, tc, pc, rfl, ho⟩⟩ := facExec_ok h1
     · exact .inl hk.owner
-    · exact .inr ⟨s, f, o, rfl, hs, ho⟩
+    · exact .inr ⟨s, f, o, tc, pc, rfl, hs, ho⟩
 
 theorem pair_update_only_factory {w : World} {s p : Nat} {funds : List (Nat × Nat)} {d da db : Nat} {r : World × Out}
     (h : pairExec w s p funds (.updateDecimals d da db) = .ok r) : ∃ P, w.pair p = some P ∧ s = P.factory := by
